@@ -101,7 +101,7 @@ pub fn run(ctx: &mut Ctx) {
             // expected dump: data of items in unavailable packs is `missing:uuid:location`
             let mut expected = expected_all.clone();
             for (i, it) in spec.items.iter().enumerate() {
-                let pack = if it.pack <= 1 { 1 } else { it.pack };
+                let pack = spec.pack_id(it.pack);
                 if let Some((uuid, loc)) = unavailable.get(&pack) {
                     let line = &expected[i + 1];
                     let cut = line.rfind("data=").unwrap();
